@@ -987,6 +987,26 @@ impl Discovery {
       self.handle_topic_reader(Some(guid_prefix));
       self.handle_subscription_reader(Some(guid_prefix));
       self.handle_publication_reader(Some(guid_prefix));
+      // The SEDP samples that announced its endpoints have been consumed long
+      // ago, so the calls above find nothing. update_participant() has moved the
+      // endpoints back from the attic: announce them again, because their
+      // proxies were dropped when the participant was lost.
+      let (readers, writers) =
+        discovery_db_read(&self.discovery_db).endpoints_of_participant(guid_prefix);
+      for d in readers {
+        // update_subscription() fills in the participant's default locators
+        let discovered_reader_data =
+          discovery_db_write(&self.discovery_db).update_subscription(&d);
+        self.send_discovery_notification(DiscoveryNotificationType::ReaderUpdated {
+          discovered_reader_data,
+        });
+      }
+      for d in writers {
+        let discovered_writer_data = discovery_db_write(&self.discovery_db).update_publication(&d);
+        self.send_discovery_notification(DiscoveryNotificationType::WriterUpdated {
+          discovered_writer_data,
+        });
+      }
       debug!("Participant rediscovery finished");
     }
   }
